@@ -929,7 +929,7 @@ def stream_constraints(c, N, solver, matrix, function):
         if real == 'accepted':
             # specification: the step that became the iterate was accepted by the strategy, earlier ones were rejected
             if not script[ncalls - 1][1] if ncalls - 1 < len(script) else False:
-                ndis += 1; c.failing_input('linesearch:rejected-step-accepted', 'LinesearchNewton made a step the strategy rejected the next iterate', replay); continue
+                ndis += 1; c.failing_input('linesearch:rejected-step-accepted', 'LinesearchNewton turned a step that the strategy rejected into the next iterate', replay); continue
             want = Fr(r0)
             okr = True
             for i, rx in enumerate(relaxes):
@@ -942,7 +942,24 @@ def stream_constraints(c, N, solver, matrix, function):
             ndis += 1; c.broken_no_input('corr:LinesearchNewton', 'model and LinesearchNewton disagree on the relaxation bookkeeping', replay)
         else:
             c.traces += 1
-    c.obligation('corr:LinesearchNewton', ndis == 0, 'exploration', '%d scripted strategies' % len(lcases))
+    # ---- the shipped strategies must never accept a step to a non-finite residual (specification, exact)
+    for strat in (solver.NormBased(), solver.MedianBased(), solver.NormBased(minscale=.125, acceptscale=.5, maxscale=4.), solver.MedianBased(quantile=.25)):
+        for _ in range(8):
+            n = rng.choice([1, 2, 4])
+            res0 = numpy.array([float(rng.choice([-2, -1, 1, 3])) for _ in range(n)]); dres0 = -res0
+            res1 = res0 * .5; res1[rng.randrange(n)] = rng.choice([math.nan, math.inf, -math.inf]); dres1 = -res0
+            try:
+                with quiet():
+                    scale, accept = strat(res0, dres0, res1, dres1)
+                got = (float(scale), bool(accept))
+            except Exception as e:
+                got = exc_name(e)
+            c.case(('strategy-nonfinite', repr(strat), fvec(res0), fvec(res1))); c.count('linesearch-strategy:nonfinite')
+            if got != (strat.minscale, False):
+                ndis += 1
+                c.failing_input('linesearch:nonfinite-step-accepted', '%r answers %r for a step to a non-finite residual (must reject with minscale)' % (strat, got),
+                                dict(op='linesearch strategy', strategy=repr(strat), res0=fvec(res0), res1=fvec(res1)))
+    c.obligation('corr:LinesearchNewton', ndis == 0, 'exploration', '%d scripted strategies + non-finite rule of NormBased / MedianBased' % len(lcases))
 
 
 
@@ -1031,8 +1048,7 @@ def e2e_linear(c, N, matrix):
             x = None; out = 'ToleranceNotReached' if isinstance(e, matrix.ToleranceNotReached) else 'MatrixError'
         except Exception as e:
             x = None; out = 'foreign'
-            multi = ncol is not None and cons is not None and cons.dtype != bool
-            nbad += 1; c.failing_input('matrix-solve:float-constrain-multicolumn' if multi else 'matrix-solve:foreign-exception:' + exc_name(e), 'Matrix.solve raised %s: %s instead of a matrix error' % (exc_name(e), str(e)[:80]), replay)
+            nbad += 1; c.failing_input('matrix-solve:foreign-exception:' + exc_name(e), 'Matrix.solve raised %s: %s instead of a matrix error' % (exc_name(e), str(e)[:80]), replay)
         c.case(('e2e-linear', kind, n, repr(A.tolist()), repr(rhs.tolist()), repr(sorted(args.items())), fopt(lhs0), fcons(cons), fopt(rcons, fmask)))
         c.count('e2e-linear:%s:%s' % (kind, out)); c.count('e2e-linear-solver:%s/%s' % (sol, args.get('precon', '-')))
         if x is None: continue
@@ -1044,8 +1060,7 @@ def e2e_linear(c, N, matrix):
         if not numpy.isfinite(x).all():
             bad = ('matrix-solver:nonfinite-returned', 'non-finite entries in the returned vector')
         elif any(not numpy.array_equal(x[j], numpy.broadcast_to(v, x[j].shape)) for j, v in pres.items()):
-            multi = ncol is not None and cons is not None and cons.dtype != bool
-            bad = ('matrix-solve:float-constrain-multicolumn' if multi else 'matrix-solve:constraint-violated', 'constrained entries differ from the prescribed values')
+            bad = ('matrix-solve:constraint-violated', 'constrained entries differ from the prescribed values')
         else:
             r1n = max(math.sqrt(float(nsq([r for r, i in zip(fr_residual(A, col(x, k), col(rhs, k)), I) if i]))) for k in cols)
             slack = 64 * n * EPS * (numpy.linalg.norm(A) * (numpy.linalg.norm(x) + numpy.linalg.norm(lhs)) + numpy.linalg.norm(rhs))
@@ -1331,9 +1346,9 @@ def corpus_regressions(c, solver, matrix, function):
                           ([math.inf, 1., 1., 3.], [1., 1.], dict(solver='direct', atol=1e-8)), ([2., 1., 1., 3.], [math.inf, 1.], dict(rtol=1e-8))):
         attempt('matrix-solver:nan-residual-accepted', 'assemble_csr(%r,[0,2,4],[0,1,0,1],2).solve(%r,%r)' % (vals, rhs, kw),
                 lambda: M2(vals).solve(numpy.array(rhs), **kw), lambda x: False)
-    attempt('matrix-solve:float-constrain-multicolumn', 'matrix.eye(3).solve(zeros((3,2)),constrain=[1.,2.,nan])',
+    attempt('matrix-solve:constraint-violated', 'matrix.eye(3).solve(zeros((3,2)),constrain=[1.,2.,nan])',
             lambda: matrix.eye(3).solve(numpy.zeros((3, 2)), constrain=numpy.array([1., 2., math.nan])), lambda x: numpy.array_equal(x, [[1, 1], [2, 2], [0, 0]]))
-    attempt('matrix-solve:float-constrain-multicolumn', 'matrix.eye(3).solve(zeros((3,2)),constrain=[nan,nan,nan])',
+    attempt('matrix-solve:foreign-exception:ValueError', 'matrix.eye(3).solve(zeros((3,2)),constrain=[nan,nan,nan])',
             lambda: matrix.eye(3).solve(numpy.zeros((3, 2)), constrain=numpy.full(3, math.nan)), lambda x: numpy.array_equal(x, numpy.zeros((3, 2))))
     v = function.Argument('v', (2,))
     attempt('solve_linear:lhs0-rejected', "solve_linear('v', eye(2)@v-1, lhs0=zeros(2))",
